@@ -180,6 +180,26 @@ lazy_static! {
   static ref LUNAR_MONTH_CACHE: Mutex<HashMap<String, Vec<f64>>> = Mutex::new(HashMap::new());
 }
 
+/// Verification hooks (compiled only with `--cfg tyme4rs_verif`): observe and reset the lunar-month memo.
+#[cfg(tyme4rs_verif)]
+pub fn verif_lunar_month_cache_reset() {
+  match LUNAR_MONTH_CACHE.lock() {
+    Ok(mut m) => m.clear(),
+    Err(e) => e.into_inner().clear(),
+  }
+  LUNAR_MONTH_CACHE.clear_poison();
+}
+
+#[cfg(tyme4rs_verif)]
+pub fn verif_lunar_month_cache_keys() -> Vec<String> {
+  let mut keys: Vec<String> = match LUNAR_MONTH_CACHE.lock() {
+    Ok(m) => m.keys().cloned().collect(),
+    Err(e) => e.into_inner().keys().cloned().collect(),
+  };
+  keys.sort();
+  keys
+}
+
 /// 农历月
 #[derive(Debug, Copy, Clone)]
 pub struct LunarMonth {
